@@ -75,6 +75,8 @@ type Ctx struct {
 	// lazily instantiated facts about terms (objof axioms etc.)
 	sideFacts []*Term
 	objofSeen map[*Term]bool
+	preMemo   map[*Term]bool
+	selDepth  int
 }
 
 type UFunc struct {
@@ -358,6 +360,30 @@ func (c *Ctx) Idx(p *Term, i *Term) *Term {
 func (c *Ctx) refsDistinct(a, b *Term) bool {
 	isCons := func(t *Term) bool {
 		return t.Op == "nilref" || t.Op == "root" || t.Op == "sub" || t.Op == "idx"
+	}
+	// the backing array of an input slice/string is never an object created by
+	// a package initialiser or a package-level variable (stated assumption)
+	inputBase := func(t *Term) bool { return t.Op == "sym" && strings.HasSuffix(t.Name, ".base") }
+	initObj := func(t *Term) bool {
+		return t.Op == "root" && t.Args[0].Op == "int" && int64(t.Args[0].V) < 0
+	}
+	if (inputBase(a) && initObj(b)) || (inputBase(b) && initObj(a)) {
+		return true
+	}
+	// ... nor an array embedded in a struct (slice parameters are disjoint from the receiver's own storage)
+	if (inputBase(a) && b.Op == "sub") || (inputBase(b) && a.Op == "sub") {
+		return true
+	}
+	// an object allocated by this invocation is distinct from anything that existed before
+	freshObj := func(t *Term) bool {
+		if t.Op != "root" {
+			return false
+		}
+		x := t.Args[0]
+		return (x.Op == "sym" && x.Name == "A0") || (x.Op == "+" && x.Args[0].Op == "sym" && x.Args[0].Name == "A0")
+	}
+	if (freshObj(a) && c.preExisting(b)) || (freshObj(b) && c.preExisting(a)) {
+		return true
 	}
 	if !isCons(a) || !isCons(b) {
 		return false
@@ -673,12 +699,60 @@ func (c *Ctx) indicesDistinct(i, j *Term) bool {
 	return false
 }
 
+// preExisting: the Ref term can only denote an object that existed at
+// function entry (it mentions neither a fresh allocation nor a havocked value).
+func (c *Ctx) preExisting(t *Term) bool {
+	if c.preMemo == nil {
+		c.preMemo = map[*Term]bool{}
+	}
+	if r, ok := c.preMemo[t]; ok {
+		return r
+	}
+	r := true
+	switch {
+	case t.Op == "sym":
+		r = !strings.Contains(t.Name, "!") && t.Name != "A0"
+	case t.Op == "bound", t.Op == "app":
+		r = false
+	default:
+		for _, a := range t.Args {
+			if !c.preExisting(a) {
+				r = false
+				break
+			}
+		}
+	}
+	c.preMemo[t] = r
+	return r
+}
+
 func (c *Ctx) Select(a, i *Term) *Term {
 	if a.S.K != SArr {
 		panic("select on non-array " + a.S.s + " " + c.Show(a))
 	}
 	if a.S.I != i.S {
 		panic(fmt.Sprintf("select index sort mismatch: array %s index %s", a.S, i.S))
+	}
+	if i.Op == "ite" && i.S == RefS && c.selDepth < 6 {
+		c.selDepth++
+		sa, sb := c.Select(a, i.Args[1]), c.Select(a, i.Args[2])
+		c.selDepth--
+		if sa == sb {
+			return sa
+		}
+		return c.Ite(i.Args[0], sa, sb)
+	}
+	if a.Op == "ite" && c.selDepth < 6 {
+		c.selDepth++
+		sa, sb := c.Select(a.Args[1], i), c.Select(a.Args[2], i)
+		c.selDepth--
+		if sa == sb {
+			return sa
+		}
+		bare := func(s, arr *Term) bool { return s.Op == "select" && s.Args[0] == arr && s.Args[1] == i }
+		if !bare(sa, a.Args[1]) || !bare(sb, a.Args[2]) {
+			return c.Ite(a.Args[0], sa, sb)
+		}
 	}
 	for a.Op == "store" {
 		if a.Args[1] == i {
